@@ -72,6 +72,14 @@ Theorem double_buffer_bounds :
     group_size (t_ranges t) d <= db_get (t_db t) (Z.of_nat i).
 Proof. exact double_buffer_bounds_lemma. Qed.
 
+(* ... and only of that parity: a consumer that puts every slice into one buffer of double_buffer_sizes[0] bytes (what
+   scheduler.propose_weight_buffering does for a single, non-double buffer) is not covered -- slice 1 is larger here *)
+Theorem single_buffer_refuted :
+  exists t, encode_layout uneven_enc 1 48 16 true (repeat 0 48) (repeat (1, 0) 48) [0; 16; 32; 48] = Some t /\
+            strictly_increasing [0; 16; 32; 48] /\
+            db_get (t_db t) 0 < group_size (t_ranges t) 16 /\ group_size (t_ranges t) 16 <= db_get (t_db t) 1.
+Proof. exact single_buffer_refuted_lemma. Qed.
+
 (* create_weights: the address ranges of slice i are its weight / scale sections, aligned, inside the tensor or (buffered)
    inside a buffer of double_buffer_sizes[i mod 2] bytes *)
 Theorem npu_ranges_inside_tensor :
@@ -163,6 +171,7 @@ Print Assumptions ranges_aligned_disjoint_ordered.
 Print Assumptions scales_one_record_per_channel.
 Print Assumptions scales_odd_slice_refuted.
 Print Assumptions double_buffer_bounds.
+Print Assumptions single_buffer_refuted.
 Print Assumptions npu_ranges_inside_tensor.
 Print Assumptions npu_scale_ranges_inside_scale_tensor.
 Print Assumptions dma_length_is_slice.
